@@ -27,6 +27,9 @@ def selections(fi: FuncInfo) -> List[Tuple[ast.AST, str, str]]:
             src = origin(defs, n.value)
             if isinstance(src, ast.Call) and isinstance(src.func, ast.Name) and src.func.id == "sorted":
                 out.append((n, "sorted(...)[0]", _tie(src), alpha(src, fn) + f"[{n.slice.value}]"))
+            elif isinstance(src, ast.Call) and isinstance(n.ctx, ast.Load) and call_name(src) not in ("split", "partition", "rsplit", "groups", "shape"):
+                # first / last element of a collection produced elsewhere: whatever order the producer happens to use decides
+                out.append((n, "<call>(...)[0]", "iteration-order", alpha(src, fn) + f"[{n.slice.value}]"))
         if isinstance(n, ast.Call) and isinstance(n.func, ast.Name) and n.func.id in ("max", "min") and len(n.args) == 1:
             arg = n.args[0]
             # min(c) over a set of ids used *inside a key* is handled by the enclosing selection
